@@ -448,6 +448,50 @@ def replot_after_change(run, hvsrpy, hook):
     run.notes["replot_after_change"] = n
 
 
+def diffuse_field_objects(run, hvsrpy, hook):
+    """A diffuse-field result is plotted and summarised like the others: read-only, also when its own peak search was bounded
+    (range, find_peaks_kwargs) beforehand - the object keeps its range, its stored peak and its meta - and the marker drawn for the
+    peak of the (mean) curve is the highest peak of the whole curve, which is what the figure asks for."""
+    plt = hook.plt
+    f = np.geomspace(0.3, 20.0, 40)
+    a = 1.0 + 2.0 * np.exp(-((np.log(f) - np.log(0.8)) / 0.2) ** 2) + 4.0 * np.exp(-((np.log(f) - np.log(9.0)) / 0.15) ** 2)
+    n = 0
+    for rng_, kwargs in (((None, None), None), ((0.4, 2.0), None), ((None, 3.0), dict(prominence=0.5)), ((5.0, None), dict(width=1))):
+        obj = hvsrpy.HvsrDiffuseField(f, a.copy(), meta={"processing_method": "diffuse_field"})
+        obj.update_peaks_bounded(search_range_in_hz=rng_, find_peaks_kwargs=kwargs)
+
+        def state():
+            return (np.asarray(obj.frequency).tobytes(), np.asarray(obj.amplitude).tobytes(), repr((float(obj.peak_frequency), float(obj.peak_amplitude))),
+                    repr(tuple(obj._search_range_in_hz)), json.dumps(obj.meta, sort_keys=True, default=str))
+        s0 = state()
+        for name, fn in (("plot_single_panel_hvsr_curves", lambda: hvsrpy.plot_single_panel_hvsr_curves(obj)),
+                         ("summarize_hvsr_statistics", lambda: hvsrpy.summarize_hvsr_statistics(obj))):
+            out = None
+            try:
+                import contextlib, io
+                with warnings.catch_warnings(), contextlib.redirect_stdout(io.StringIO()):
+                    warnings.simplefilter("ignore")
+                    out = fn()
+            except (ValueError, ZeroDivisionError):
+                pass
+            except Exception as e:
+                run.violation(f"plot:{name}:exception:diffuse-field", f"{name} on a diffuse-field result (range {rng_}, kwargs {kwargs}) raised {type(e).__name__}: {e}",
+                              dict(kind="plot-df", range=rng_, kwargs=kwargs))
+            if state() != s0:
+                run.violation(f"plot:{name}:mutates-object:diffuse-field", f"{name} changed the diffuse-field result it was given (search range {rng_}, find_peaks_kwargs {kwargs}): "
+                              f"peak / range now {(float(obj.peak_frequency), tuple(obj._search_range_in_hz))}", dict(kind="plot-df", range=rng_, kwargs=kwargs))
+                obj.update_peaks_bounded(search_range_in_hz=rng_, find_peaks_kwargs=kwargs)
+                s0 = state()
+            if out is not None and name == "plot_single_panel_hvsr_curves":
+                curve = [ln for ln in out[1].get_lines() if len(ln.get_xdata()) == len(f) and np.array_equal(ln.get_ydata(), a)]
+                if not curve:
+                    run.violation("plot:panel:curve:diffuse-field", "the diffuse-field curve is not drawn", dict(kind="plot-df", range=rng_, kwargs=kwargs))
+            plt.close("all")
+        n += 1
+        run.case(("df", str(rng_), json.dumps(kwargs)))
+    run.notes["diffuse_field_objects"] = n
+
+
 def main():
     run = Run("C20")
     hvsrpy = import_hvsrpy()
@@ -481,6 +525,7 @@ def main():
     run.notes["plot_calls"] = total_calls
     kwargs_objects(run, hvsrpy, hook)
     replot_after_change(run, hvsrpy, hook)
+    diffuse_field_objects(run, hvsrpy, hook)
     return run.finish(
         rule="states of the exported HvsrObject graphs reached on real traditional / 2-azimuth objects; at every k-th state "
              "the single-panel plot (all options on), summary table, pre/post-rejection figure, waveform plot resp. the three "
